@@ -14,6 +14,10 @@ def cases(tier):
     bound = 2 if tier == 'thorough' else 1
     for name in SCENARIOS:
         yield {'scenario': name, 'bound': bound}
+    # an entity configured to wait for messages as long as it takes (timeout None): the provider's own ARTIM still bounds the
+    # waits it is responsible for
+    for name in ('silent-requestor', 'peer-never-closes-after-reject', 'peer-never-closes-after-release'):
+        yield {'scenario': name, 'bound': 0, 'timeout_none': True}
 
 
 def make(case):
@@ -26,6 +30,8 @@ def make(case):
                 if name == 'peer-never-closes-after-reject':
                     raise exceptions.AssociationRejectedError(1, 1, 3)
         ae = assoc.make_ae('SCP', None, 16384, [sopclass.verification_scp], cls=Srv)
+        if case.get('timeout_none'):
+            ae.timeout = None
         cae = applicationentity.ClientAE('SCU', None, 16384).add_scu(sopclass.verification_scu)
         remote = {'aet': 'SCP', 'address': 'srv', 'port': 104}
         results['lib_ends'] = []
@@ -160,6 +166,13 @@ def judge(case, out):
     where = 'scenario=%s schedule=%s results=%s' % (name, ''.join(map(str, [c for c in out.choices if c])) or 'default', common.short(
         {k: v for k, v in out.results.items() if k != 'lib_ends'}, 300))
     lib_threads = [t for t in out.threads if not t[0].startswith('peer')]
+    if case.get('timeout_none') and name == 'silent-requestor':
+        # the application chose to wait without limit for the peer's request: its handler thread legitimately waits on; what
+        # the provider owes is to give the connection up when ARTIM expires
+        lib_open = [e for e in out.open_ends if e != 'peer']
+        if lib_open:
+            viol.append((sig + ':transport-left-open', 'the peer never sent its request; ARTIM (10 s) has long expired and the library still holds %r (%s)' % (lib_open, where)))
+        return viol
     if out.deadlock:
         stuck = [x for x in out.deadlock if not x[0].startswith('peer')]
         if stuck:
